@@ -630,6 +630,24 @@ fn explore(ctx: &mut Ctx) {
         }
         ctx.exhaustive_part("slices / strings of 70000 elements: a single difference at positions around 2^8, 2^15, 2^16 and the end, and prefixes cut there; 5 element types + str");
     }
+    // many differences: equal-length slices / strings that differ at every position, or at every position of a long
+    // prefix / suffix (counters of mismatches narrower than usize wrap at 2^8, 2^16)
+    for len in [255usize, 256, 257, 511, 512, 513, 768, 65_535, 65_536, 65_537] {
+        let a: Vec<usize> = vec![0; len];
+        let b: Vec<usize> = vec![1; len];
+        let mut half = a.clone();
+        for x in half.iter_mut().take(256.min(len)) {
+            *x = 1;
+        }
+        for name in ["u8", "u16", "i64", "char", "bool", "u128"] {
+            for (x, y) in [(&a, &b), (&b, &a), (&a, &half), (&half, &b)] {
+                eval(ctx, case(name, "slice", x.clone(), y.clone()));
+            }
+        }
+        eval(ctx, case("str", "str", a.clone(), b.clone()));
+        eval(ctx, case("str", "str", a.clone(), half.clone()));
+    }
+    ctx.exhaustive_part("equal-length slices / strings of 255..=65537 elements differing at every position, or at exactly the first 256 positions; 6 element types + str");
     // random: longer slices over a 2-3 value alphabet
     let n = ctx.by_tier(40_000, 1_000_000);
     let strat = (0usize..14, proptest::collection::vec(0usize..3, 0..12), proptest::collection::vec(0usize..3, 0..12), any::<bool>(), any::<bool>(), 0usize..4);
